@@ -4,6 +4,7 @@ import (
 	"fmt"
 	"regexp"
 	"sort"
+	"strconv"
 	"strings"
 
 	"github.com/preslavrachev/gomjml/mjml/fonts"
@@ -121,7 +122,29 @@ func runC11(res *Result, tier string, seed int64, replay string) {
 		if tier == "thorough" {
 			n = 8000
 		}
-		widths := []string{"40%", "33.33%", "12.5%", "150px", "200px", "25%", "66.6666%", "100%", "7%", "300px"}
+		// feature components in every place a content component may stand, and fonts named on their sub-elements
+		features := map[string]string{
+			"accordion": `<mj-accordion><mj-accordion-element font-family="Lato"><mj-accordion-title font-family="Roboto">Q</mj-accordion-title><mj-accordion-text font-family="Open Sans">A</mj-accordion-text></mj-accordion-element></mj-accordion>`,
+			"navbar":    `<mj-navbar hamburger="hamburger"><mj-navbar-link href="/a" font-family="Montserrat">A</mj-navbar-link></mj-navbar>`,
+			"carousel":  `<mj-carousel><mj-carousel-image src="a.png"/><mj-carousel-image src="b.png"/></mj-carousel>`,
+			"fluid":     `<mj-image src="i.png" fluid-on-mobile="true"/>`,
+			"social":    `<mj-social font-family="Droid Sans"><mj-social-element name="facebook" href="h" font-family="Ubuntu">F</mj-social-element></mj-social>`,
+			"button":    `<mj-button href="u" font-family="Lato">B</mj-button>`,
+		}
+		places := map[string][2]string{
+			"column":       {`<mj-section><mj-column>`, `</mj-column></mj-section>`},
+			"group":        {`<mj-section><mj-group><mj-column>`, `</mj-column></mj-group></mj-section>`},
+			"wrapper":      {`<mj-wrapper><mj-section><mj-column>`, `</mj-column></mj-section></mj-wrapper>`},
+			"hero":         {`<mj-hero>`, `</mj-hero>`},
+			"wrapper-hero": {`<mj-wrapper><mj-hero>`, `</mj-hero></mj-wrapper>`},
+		}
+		for fn, fsrc := range features {
+			for pn, p := range places {
+				docs = append(docs, doc{"feature:" + fn + "-in-" + pn, "<mjml><mj-body>" + p[0] + fsrc + p[1] + "</mj-body></mjml>"})
+			}
+		}
+		sort.Slice(docs, func(i, j int) bool { return docs[i].name < docs[j].name })
+		widths := []string{"40%", "33.33%", "12.5%", "150px", "200px", "25%", "66.6666%", "100%", "7%", "300px", "150.6px", "199.75px", "120.2px", "33.5%"}
 		for i := 0; i < n; i++ {
 			r := NewRng(seed, fmt.Sprintf("c11/%d", i))
 			d := fontHeavyDoc(r, i)
@@ -288,12 +311,20 @@ func classKind(c string) string {
 	return "per"
 }
 
+// sameNumber: equal numeric value and equal unit ("33.330%" = "33.33%"); the number is split off by hand — Sscanf's %f would
+// read the 'p' of "px" as a hexadecimal-float exponent
 func sameNumber(a, b string) bool {
-	var x, y float64
-	var ua, ub string
-	fmt.Sscanf(a, "%f%s", &x, &ua)
-	fmt.Sscanf(b, "%f%s", &y, &ub)
-	return x == y && ua == ub
+	split := func(s string) (float64, string, bool) {
+		i := 0
+		for i < len(s) && (s[i] >= '0' && s[i] <= '9' || s[i] == '.' || s[i] == '-') {
+			i++
+		}
+		v, err := strconv.ParseFloat(s[:i], 64)
+		return v, s[i:], err == nil
+	}
+	x, ua, ok1 := split(a)
+	y, ub, ok2 := split(b)
+	return ok1 && ok2 && x == y && ua == ub
 }
 
 func init() { register("C11", runC11) }
